@@ -5,10 +5,11 @@
 (*                                                                         *)
 (* The trace (ndjson, VERIF_TRACE) is a corpus of scenarios separated by   *)
 (* Reset records.  Replay is one behaviour; from EVERY position of it the  *)
-(* action PowerLoss branches to EVERY state of CrashStates (all loss       *)
-(* subsets of un-synced directory operations, all outcomes of un-synced    *)
-(* file data) -- these successors are the "every power-loss point" of the  *)
-(* property's quantifier.  Formulas false on the replayed state are        *)
+(* action PowerLoss branches to every outcome that a read of every key can *)
+(* have over ALL states of CrashStates (all loss subsets of un-synced      *)
+(* directory operations, all outcomes of un-synced file data) -- these     *)
+(* successors are the "every power-loss point" of the property's           *)
+(* quantifier.  Formulas false on the replayed state are        *)
 (* collected in viol and printed as <<"SCENARIO", name, viol>> when the    *)
 (* scenario ends; formulas false in a crash state are printed as           *)
 (* <<"CRASH", name, formulas, line>> when TLC generates that state.        *)
@@ -50,9 +51,10 @@ VARIABLES l,       \* next trace line
           ups,     \* uploads and discards: [u, kind, path, valid, c, imm, call, ret, ok, errc, expect]
           fet,     \* fetch id -> [path, valid, call]
           immobj,  \* path -> content of the immutable object established there
-          viol     \* <<formula, line>> of the replayed scenario
+          viol,    \* <<formula, line>> of the replayed scenario
+          obs      \* in a power-loss successor: <<key path, what a read yields>>
 
-vars == <<l, S, mode, scen, ups, fet, immobj, viol>>
+vars == <<l, S, mode, scen, ups, fet, immobj, viol, obs>>
 
 e == Trace[l]
 
@@ -131,7 +133,7 @@ SysStep(T) ==
 Report == PrintT(<<"SCENARIO", scen.scenario, viol>>)
 
 Init == /\ l = 1 /\ S = Empty /\ mode = "run" /\ scen = NoScen
-        /\ ups = <<>> /\ fet = NoFn /\ immobj = NoFn /\ viol = {}
+        /\ ups = <<>> /\ fet = NoFn /\ immobj = NoFn /\ viol = {} /\ obs = <<>>
 
 DoReset ==
     /\ e.ev = "Reset"
@@ -229,11 +231,11 @@ DoFetchResult ==
 \* the real tree at the end of the scenario, read by the harness
 DoObserve ==
     /\ e.ev = "ObserveEnd"
-    /\ LET obs == {<<e.tree[i].path, e.tree[i].kind, e.tree[i].c>> : i \in DOMAIN e.tree}
-           ObsC(p) == LET m == {x \in obs : x[1] = p /\ x[2] = "file"} IN
+    /\ LET seen == {<<e.tree[i].path, e.tree[i].kind, e.tree[i].c>> : i \in DOMAIN e.tree}
+           ObsC(p) == LET m == {x \in seen : x[1] = p /\ x[2] = "file"} IN
                       IF m = {} THEN Absent ELSE (CHOOSE x \in m : TRUE)[3]
        IN viol' = AddV(viol,
-            F("MODEL.TreeMismatch", scen.seq => Tree(S) = obs)
+            F("MODEL.TreeMismatch", scen.seq => Tree(S) = seen)
             \cup F("C13.ReadComplete", \A p \in Tracked(ups) : ObsC(p) \in Admissible(ups, p, l, l + 1, FALSE)))
     /\ UNCHANGED <<S, mode, scen, ups, fet, immobj>>
 
@@ -246,20 +248,39 @@ Replay ==
     /\ mode = "run" /\ l <= Len(Trace)
     /\ \/ DoReset \/ DoEnd \/ DoSys \/ DoUploadCalled \/ DoUploadReturned \/ DoUploadTimeout
        \/ DoDiscardCalled \/ DoDiscardReturned \/ DoFetchCalled \/ DoFetchResult \/ DoObserve \/ DoOther
-    /\ l' = l + 1
+    /\ l' = l + 1 /\ obs' = obs
 
 \* carried over a power loss into a follow-up scenario: the immutable objects
 \* whose upload had returned
 Carry == {<<p, immobj[p].id, immobj[p].len, immobj[p].st>> : p \in DOMAIN immobj}
 FlatTree(T) == {<<x[1], x[2], x[3].id, x[3].len, x[3].st>> : x \in Tree(T)}
 
+\* Power loss before trace line l.  The formulas are per key, and directories and
+\* files are lost independently, so instead of the product of all loss subsets
+\* (CrashStates, exponential once a mutated implementation leaves much un-synced)
+\* TLC branches, for every tracked key, to every outcome a read of that key can
+\* have over ALL crash states (PossibleReads; equality with the enumeration is the
+\* invariant FactorOK of LocalFSDesign).  Scenarios marked dump also branch to the
+\* whole crash states, which the driver materialises for crash-then-re-upload
+\* compositions.
+OneReadViol(p, r, U, t) ==
+    IF r \in Admissible(U, p, t, t, TRUE) THEN {}
+    ELSE IF r.st # "full" THEN {"C13.Atomic"}
+    ELSE IF r \in FailedC(U, p, t) /\ r \notin KnownC(U, p, t) THEN {"C13.Immutable.Unchanged"}
+    ELSE IF r \in KnownC(U, p, t) THEN {"C13.Durable"}
+    ELSE {"C13.Atomic"}
+
 PowerLoss ==
     /\ mode = "run" /\ scen.scenario # "" /\ l <= Len(Trace)
-    /\ \E X \in CrashStates(S) :
-          LET v == ReadViol(X, ups, l, TRUE) IN
-          /\ (v # {} => PrintT(<<"CRASH", scen.scenario, v, l>>))
-          /\ (scen.dump => PrintT(<<"CRASHSTATE", scen.scenario, l, FlatTree(X), Carry>>))
-          /\ S' = X
+    /\ \/ \E p \in Tracked(ups) : \E r \in PossibleReads(S, p) :
+             LET v == OneReadViol(p, r, ups, l) IN
+             /\ (v # {} => PrintT(<<"CRASH", scen.scenario, v, l>>))
+             /\ obs' = <<p, r>>
+             /\ S' = S
+       \/ /\ scen.dump /\ SmallLoss(S)
+          /\ \E X \in CrashStates(S) :
+                /\ PrintT(<<"CRASHSTATE", scen.scenario, l, FlatTree(X), Carry>>)
+                /\ S' = X /\ obs' = <<>>
     /\ mode' = "crashed"
     /\ UNCHANGED <<l, scen, ups, fet, immobj, viol>>
 
